@@ -1,8 +1,10 @@
 import Storrent.Drive.MetaLine
+import Storrent.Model.MetaDecode
 import Storrent.Model.MetaSha1
 /- driver for the C13 stream:
    `mc <psLen> <name> <name8> <pl> <|pieces|> <length> <files>` -> MetadataComplete on a BInfo
    `slice <hex> <D1|D0>`      -> the raw info value found by infoSlice: length and SHA-1
+   `rt <hex>`                 -> ReadTorrent over raw bytes with the Lean decoder (MetaDecode)
    `magnet <hex> U0 | U1 <scheme> <xts>`  -> ReadMagnet's decision
    `wt <tiers> <webseeds>`    -> WriteTorrent's field selection and ReadTorrent's reading of it -/
 namespace Storrent.Drive.C13
@@ -64,6 +66,27 @@ def step (_ : Unit) (ws : List String) : Unit × String :=
     match MetaLine.parseBInfo rest with
     | some (psl, bi) => ((), resStr (metadataComplete psl bi))
     | none => ((), "bad-op")
+  | ["wtb", tiers, wsl, cdate, ih] =>
+    -- the bytes WriteTorrent produces, and what ReadTorrent-over-bytes makes of them
+    match parseTiers tiers, parseWs wsl, cdate.toInt?, ofHex ih with
+    | some ts, some wl, some cd, some info =>
+      let out := writeTorrentBytes info cd (writeFields ts wl)
+      let back := match topInfo out with
+        | some ol => if sliceBytes out ol == info then "same-info" else "other-info"
+        | none => "no-info"
+      ((), s!"{out.length} {toHex (Sha1.sha1 out)} {back}")
+    | _, _, _, _ => ((), "bad-op")
+  | ["rt", h] =>
+    -- ReadTorrent over raw bytes with the Lean decoder
+    match ofHex h with
+    | none => ((), "bad-op")
+    | some bs =>
+      match readTorrentBytes bs with
+      | .ok info g => ((), s!"{resStr (.ok g)} ih={toHex (Sha1.sha1 info)}")
+      | .noInfo => ((), "rejected")
+      | .badInfo => ((), "rejected")
+      | .err e => ((), "err " ++ errStr e)
+      | .panic _ => ((), "panic")
   | ["slice", h, d] =>
     match ofHex h with
     | none => ((), "bad-op")
